@@ -535,14 +535,19 @@ func (i *IniParser) matchingGroups(name string) []*Group {
 func (i *IniParser) parse(ini *ini) error {
 	p := i.parser
 
-	p.eachOption(func(cmd *Command, group *Group, option *Option) {
-		option.clearReferenceBeforeSet = true
-	})
-
 	var quotesLookup = make(map[*Option]bool)
 
 	// Options which got a value from this ini file
 	var setHere = make(map[*Option]bool)
+
+	defer func() {
+		// An explicit value which follows (the command line may still be
+		// parsed when an option callback reads the file) replaces what the
+		// file provided instead of extending it
+		for opt := range setHere {
+			opt.clearReferenceBeforeSet = true
+		}
+	}()
 
 	// Apply sections in file order (ranging over the map would be random)
 	for _, name := range ini.sectionNames {
@@ -626,6 +631,14 @@ func (i *IniParser) parse(ini *ini) error {
 			}
 
 			var err error
+
+			if !setHere[opt] {
+				// The first entry for an option replaces what it holds; only
+				// the options named in the file are touched, so that reading
+				// a file while the command line is parsed does not make later
+				// occurrences of other options start over
+				opt.clearReferenceBeforeSet = true
+			}
 
 			if i.ParseAsDefaults {
 				// a further entry for an option already set from this file
